@@ -2,6 +2,7 @@ SPECIFICATION Spec
 CONSTANTS
   Depth = 2
   EmitDepth = 3
+  MoreInits = FALSE
 INVARIANTS
   InvWellFormed
   InvFailNoChange
